@@ -469,7 +469,9 @@ def run_check(pid, tier, seed):
     reported = set()
 
     def report(item, kind):
-        k = matches_known(pid, item, known)
+        # known findings are failures of the property on the implementation itself (oracle); the model
+        # follows the code, defects included, so a disagreement between the two is never "known"
+        k = matches_known(pid, item, known) if kind == "oracle" else None
         if k:
             line = f"KNOWN-FINDING: property={pid} {k['what']}"
             if line not in known_lines:
@@ -480,7 +482,7 @@ def run_check(pid, tier, seed):
             return  # one replay per profile and kind: the smallest case
         reported.add(sig)
         same = [x for x in (stats["oracle_failures"] if kind == "oracle" else stats["disagreements"])
-                if x["profile"] == item["profile"] and not matches_known(pid, x, known)
+                if x["profile"] == item["profile"] and (kind != "oracle" or not matches_known(pid, x, known))
                 and (kind == "oracle" or (x["profile"], x["index"]) not in oracle_cases)]
         best = min(same, key=lambda x: len(x["case"]))
         payload = {
@@ -501,7 +503,10 @@ def run_check(pid, tier, seed):
             suffix = "no-failing-input-found"
         violations.append((path, suffix))
 
-    oracle_cases = set((x["profile"], x["index"]) for x in stats["oracle_failures"])
+    # a disagreement on a case whose oracle failure is reported anyway is the same event; one whose
+    # oracle failure is a known finding is not (the known defect does not explain a disagreement)
+    oracle_cases = set((x["profile"], x["index"]) for x in stats["oracle_failures"]
+                       if not matches_known(pid, x, known))
     for item in stats["oracle_failures"]:
         report(item, "oracle")
     for item in stats["disagreements"]:
